@@ -18,11 +18,42 @@ pub fn seq_strategy(cfg: CaseCfg) -> BoxedStrategy<SeqCase> {
   (gen::case(&cfg), 0u64..4).prop_map(|(case, hash_seed)| SeqCase { case, hash_seed }).boxed()
 }
 
+/// rough size of a case: items its sources and its history can produce, and its largest count
+/// parameter. Only the `large` generators get beyond a few dozen.
+pub fn case_size(c: &Case) -> u64 {
+  let mut n = c.actions.len() as u64 + c.recorders.len() as u64;
+  let mut mult = 1u64;
+  c.root.walk(&mut |x| match x {
+    Node::Src(_, Src::Cold { script, .. }) => n += script.len() as u64,
+    Node::Src(_, Src::PerSub { scripts, .. }) => n += scripts.iter().map(|s| s.len() as u64).sum::<u64>(),
+    Node::Src(_, Src::FromIter(v)) => n += v.len() as u64,
+    Node::Src(_, Src::Range(_, k)) => n += (*k).max(0) as u64,
+    Node::Un(Op::Take(k), _) | Node::Un(Op::ElementAt(k), _) => n += (*k).min(1_000) as u64,
+    Node::Un(Op::StartWith(v), _) => n += v.len() as u64,
+    Node::Un(Op::Retry(k), _) => mult = mult.saturating_mul(*k as u64 + 1),
+    _ => {}
+  });
+  n.saturating_mul(mult)
+}
+
+/// budgets of a sequential run: fixed for the ordinary (small) cases, growing with the size
+/// of the `large` ones so that a legitimately long run is not cut short
+pub fn seq_budget(c: &Case) -> (u64, i64) {
+  let size = case_size(c);
+  if size <= 40 {
+    (60_000, 60_000)
+  } else {
+    let b = (60_000 + 3_000 * size).min(6_000_000);
+    (b, b as i64)
+  }
+}
+
 pub fn run_seq(c: &SeqCase) -> RunResult {
+  let (max_steps, fuel) = seq_budget(&c.case);
   let cfg = arx_rt::Config {
     schedule: arx_rt::Schedule { hash_seed: c.hash_seed, ..Default::default() },
-    max_steps: 60_000,
-    fuel: 60_000,
+    max_steps,
+    fuel,
   };
   run_case(&c.case, cfg, RunOpts::default())
 }
